@@ -1,6 +1,8 @@
 import Cardutil.Wire
 import Cardutil.Model.Block1014
 import Cardutil.Model.Vbs
+import Cardutil.Model.Card
+import Cardutil.Model.PinBlock
 /-
   Line-protocol driver: one request per line on stdin (tab separated), one response per line on
   stdout.  Executes the *model* definitions that the theorems in `Cardutil/Props` are about.
@@ -51,6 +53,32 @@ def cutsSummary (blocked : Bool) (ml : Nat) (file : Bytes) (step : Nat) : String
   ";".intercalate (ns.map (fun n =>
     let r := vbsBytesToList P1014 ml blocked (file.take n)
     s!"{r.1.length}:{sig (r.1.flatten)}:{renderEnd r.2}"))
+
+def renderValidate : Outcome Unit → String
+  | .ok _ => "accept"
+  | .escape .assertionError => "reject"
+  | .escape k => s!"escape:{k.name}"
+  | .dataError => "err"
+  | .diverge => "diverge"
+
+/-- check digit, then accept/reject of: the completed number, every single-digit substitution,
+    every adjacent transposition of different digits (same enumeration order as the harness) -/
+def luhnEdits (t : Text) : String :=
+  let c := Card.calcText t
+  let n := t ++ c
+  let v (x : Text) : Char := match Card.validateText x with
+    | .ok _ => 'A' | .escape .assertionError => 'R' | _ => 'X'
+  let subs := (List.range n.length).flatMap (fun i =>
+    ((List.range 10).filter (fun d => some (48 + d) != n[i]?)).map (fun d => v (n.set i (48 + d))))
+  let swaps := ((List.range (n.length - 1)).filter (fun i => n[i]? != n[i+1]?)).map (fun i =>
+    v ((n.set i (n[i+1]?.getD 0)).set (i + 1) (n[i]?.getD 0)))
+  s!"{toDotted c} {v n} {String.ofList subs} {String.ofList swaps}"
+
+def renderOut {α} (f : α → String) : Outcome α → String
+  | .ok a => "ok " ++ f a
+  | .dataError => "err"
+  | .escape k => s!"escape:{k.name}"
+  | .diverge => "diverge"
 
 def process (line : String) : String :=
   match line.splitOn "\t" with
@@ -113,6 +141,59 @@ def process (line : String) : String :=
       let f := Writer.listToBytes P1014 (b == "1") (pcRecords ls)
       s!"ok {cutsSummary (b == "1") ml f (max st 1)}"
     | _, _, _ => "bad-op"
+  | ["luhn.calc", t] =>
+    match parseDotted t with
+    | some t => s!"ok {toDotted (Card.calcText t)}"
+    | none => "bad-op"
+  | ["luhn.validate", t] =>
+    match parseDotted t with
+    | some t => renderValidate (Card.validateText t)
+    | none => "bad-op"
+  | ["luhn.add", t] =>
+    match parseDotted t with
+    | some t => s!"ok {toDotted (Card.addCheckDigit t)}"
+    | none => "bad-op"
+  | ["luhn.edits", t] =>
+    match parseDotted t with
+    | some t => s!"ok {luhnEdits t}"
+    | none => "bad-op"
+  | ["mask", t, m] =>
+    match parseDotted t, m.toNat? with
+    | some t, some m => s!"ok {toDotted (Card.mask t m)}"
+    | _, _ => "bad-op"
+  | ["panprefix", t] =>
+    match parseDotted t with
+    | some t => s!"ok {toDotted (Card.panPrefix t)}"
+    | none => "bad-op"
+  | ["pin.iso0", pin, pan] =>
+    match parseDotted pin, parseDotted pan with
+    | some pin, some pan => renderOut toHex (Pin.iso0ToBytes pin pan)
+    | _, _ => "bad-op"
+  | ["pin.iso0from", blk, pan] =>
+    match parseHex blk, parseDotted pan with
+    | some b, some pan => renderOut toDotted (Pin.iso0FromBytes b pan)
+    | _, _ => "bad-op"
+  | ["pin.iso4", pin, rnd] =>
+    match parseDotted pin, rnd.toNat? with
+    | some pin, some r => renderOut toHex (Pin.iso4ToBytes pin r)
+    | _, _ => "bad-op"
+  | ["pin.iso4from", blk] =>
+    match parseHex blk with
+    | some b => renderOut toDotted (Pin.iso4FromBytes b)
+    | none => "bad-op"
+  | ["pvv", pin, idx, pan, ct] =>
+    match parseDotted pin, parseDotted idx, parseDotted pan, parseHex ct with
+    | some pin, some idx, some pan, some ct =>
+      s!"tsp {toDotted (Pin.tsp pan idx pin)} " ++ renderOut toDotted (Pin.pvv (fun _ => ct) pin idx pan)
+    | _, _, _, _ => "bad-op"
+  | ["key.combine", parts] =>
+    match (if parts.isEmpty then some [] else (parts.splitOn ",").mapM parseDotted) with
+    | some ps => renderOut toDotted (Pin.combine ps)
+    | none => "bad-op"
+  | ["kcv", ct, n] =>
+    match parseHex ct, n.toNat? with
+    | some ct, some n => s!"ok {toDotted (Pin.kcv (fun _ => ct) n)}"
+    | _, _ => "bad-op"
   | _ => "bad-op"
 
 partial def loop (hin hout : IO.FS.Stream) : IO Unit := do
